@@ -12,12 +12,12 @@ EXTENDS Naturals, Integers, Sequences, FiniteSets, TLC
 SV == {"sv1", "sv2"}                 \* user defined status variables (table order sv1, sv2)
 SVX == SV \cup {"svu"}               \* svu: unknown id
 SvOrder == <<"sv1", "sv2">>
-EC == {"ec1", "ec2", "ecp", "ecc"}   \* ec1: bounded [0, 10]; ec2: unbounded; ecp: the predefined EstablishCommunicationsTimeout [10, 120],
-                                     \* whose value lives in the settings; ecc: bounded [0, 100], served by the application's callbacks
+EC == {"ec1", "ec2", "ecp", "ecc"}   \* ec1: bounded [0, 10]; ec2: only a minimum (0); ecp: the predefined EstablishCommunicationsTimeout [10, 120],
+                                     \* whose value lives in the settings; ecc: only a maximum (10), served by the application's callbacks
 ECX == EC \cup {"ecu"}
 EcOrder == <<"ec1", "ec2", "ecc">>    \* user constants in table order (the predefined ones precede them)
-EcMin == [e \in EC |-> CASE e = "ec1" -> 0 [] e = "ecp" -> 10 [] e = "ecc" -> 0 [] OTHER -> -1000000]
-EcMax == [e \in EC |-> CASE e = "ec1" -> 10 [] e = "ecp" -> 120 [] e = "ecc" -> 100 [] OTHER -> 1000000]
+EcMin == [e \in EC |-> CASE e = "ec1" -> 0 [] e = "ecp" -> 10 [] e = "ec2" -> 0 [] OTHER -> -1000000]
+EcMax == [e \in EC |-> CASE e = "ec1" -> 10 [] e = "ecp" -> 120 [] e = "ecc" -> 10 [] OTHER -> 1000000]
 AL == {"al1", "al2"}
 ALX == AL \cup {"alu"}
 AlOrder == <<"al1", "al2">>
